@@ -7,5 +7,5 @@ for X in A B; do
   echo "######## R8 $C $X"
   /verif/bin/confirm_seed /tmp/wt8_$C $D 2>&1
   echo "-- triage"
-  /verif/bin/try_seed_iso $D/patch.diff $C quick 2>&1
+  flock /tmp/r5.lock /verif/bin/try_seed_iso $D/patch.diff $C quick 2>&1
 done
